@@ -317,6 +317,29 @@ pub mod vx_export {
         Ok((via_manager, in_db))
     }
 
+    /// C16 witness: through ONE cached storage manager, write the epoch record of epoch 5, then (path 0: set, 1: batch_set, 2: transaction
+    /// commit) an epoch record with a SMALLER epoch - any sequence of writes is allowed -, then read it back through the manager and
+    /// directly from the database. Returns (epoch the manager's read reports, epoch the database holds): they must be equal.
+    pub async fn c16_lower_epoch_write(path: u8) -> Result<(u64, u64), AkdError> {
+        let db = AsyncInMemoryDatabase::new();
+        let m = StorageManager::new(db.clone(), None, None, None);
+        m.set(DbRecord::Azks(Azks { latest_epoch: 5, num_nodes: 12 })).await.map_err(AkdError::Storage)?;
+        let _ = m.get::<Azks>(&crate::append_only_zks::DEFAULT_AZKS_KEY).await.map_err(AkdError::Storage)?;
+        let older = DbRecord::Azks(Azks { latest_epoch: 3, num_nodes: 7 });
+        match path {
+            0 => m.set(older).await.map_err(AkdError::Storage)?,
+            1 => m.batch_set(vec![older]).await.map_err(AkdError::Storage)?,
+            _ => {
+                if !m.begin_transaction() { return Err(AkdError::TestErr("no txn".to_string())); }
+                m.set(older).await.map_err(AkdError::Storage)?;
+                m.commit_transaction().await.map(|_| ()).map_err(AkdError::Storage)?
+            }
+        };
+        let via_manager = match m.get::<Azks>(&crate::append_only_zks::DEFAULT_AZKS_KEY).await.map_err(AkdError::Storage)? { DbRecord::Azks(a) => a.latest_epoch, _ => 0 };
+        let in_db = match db.get::<Azks>(&crate::append_only_zks::DEFAULT_AZKS_KEY).await.map_err(AkdError::Storage)? { DbRecord::Azks(a) => a.latest_epoch, _ => 0 };
+        Ok((via_manager, in_db))
+    }
+
     // ---- C10: fault injection at every database operation of a publish
     #[derive(Clone)]
     pub struct FaultyDb { inner: AsyncInMemoryDatabase, ops: Arc<std::sync::atomic::AtomicI64>, fail_at: Arc<std::sync::atomic::AtomicI64> }
@@ -816,7 +839,7 @@ pub mod vx_export {
     // future (the other clone's publish) at the first bulk-versions read after it was armed
     type Pending = Arc<tokio::sync::Mutex<Option<std::pin::Pin<Box<dyn std::future::Future<Output = Option<(u64, crate::Digest)>> + Send>>>>>;
     #[derive(Clone)]
-    pub struct RunAtReadDb { inner: AsyncInMemoryDatabase, pending: Pending, result: Arc<std::sync::Mutex<Option<Option<(u64, crate::Digest)>>>> }
+    pub struct RunAtReadDb { inner: AsyncInMemoryDatabase, pending: Pending, result: Arc<std::sync::Mutex<Option<Option<(u64, crate::Digest)>>>>, at_commit: Arc<AtomicBool> }
     impl RunAtReadDb {
         async fn fire(&self) {
             let fut = self.pending.lock().await.take();
@@ -826,13 +849,17 @@ pub mod vx_export {
     #[async_trait::async_trait]
     impl Database for RunAtReadDb {
         async fn set(&self, record: DbRecord) -> Result<(), StorageError> { self.inner.set(record).await }
-        async fn batch_set(&self, records: Vec<DbRecord>, state: DbSetState) -> Result<(), StorageError> { self.inner.batch_set(records, state).await }
+        async fn batch_set(&self, records: Vec<DbRecord>, state: DbSetState) -> Result<(), StorageError> {
+            // the commit write has been issued but has not reached storage yet: this is where the other call runs
+            if matches!(state, DbSetState::TransactionCommit) && self.at_commit.load(Ordering::SeqCst) { self.fire().await; }
+            self.inner.batch_set(records, state).await
+        }
         async fn get<St: Storable>(&self, id: &St::StorageKey) -> Result<DbRecord, StorageError> { self.inner.get::<St>(id).await }
         async fn batch_get<St: Storable>(&self, ids: &[St::StorageKey]) -> Result<Vec<DbRecord>, StorageError> { self.inner.batch_get::<St>(ids).await }
         async fn get_user_data(&self, username: &AkdLabel) -> Result<KeyData, StorageError> { self.inner.get_user_data(username).await }
         async fn get_user_state(&self, username: &AkdLabel, flag: ValueStateRetrievalFlag) -> Result<ValueState, StorageError> { self.inner.get_user_state(username, flag).await }
         async fn get_user_state_versions(&self, usernames: &[AkdLabel], flag: ValueStateRetrievalFlag) -> Result<HashMap<AkdLabel, (u64, AkdValue)>, StorageError> {
-            self.fire().await;
+            if !self.at_commit.load(Ordering::SeqCst) { self.fire().await; }
             self.inner.get_user_state_versions(usernames, flag).await
         }
     }
@@ -840,10 +867,14 @@ pub mod vx_export {
     /// Publish P2 = [(b,b2),(e,e1)] on one clone reads the epoch record; before it begins its transaction, publish P1 = [(a,a2),(z,z1)] on
     /// ANOTHER CLONE runs to completion. Afterwards: the epochs / hashes both calls returned, the final epoch, whether every returned
     /// (epoch, hash) pair is still what audit proofs verify against, and whether both calls' values are served.
-    pub async fn c12_overtaken_on_clone<TC: Configuration>(cache: bool) -> Result<C12Outcome, AkdError> {
+    pub async fn c12_overtaken_on_clone<TC: Configuration>(cache: bool) -> Result<C12Outcome, AkdError> { c12_overtaken_where::<TC>(cache, false).await }
+    /// The same, but the other clone's publish runs while THIS call's commit write has been issued and has not reached storage yet
+    pub async fn c12_overtaken_at_commit<TC: Configuration>(cache: bool) -> Result<C12Outcome, AkdError> { c12_overtaken_where::<TC>(cache, true).await }
+    async fn c12_overtaken_where<TC: Configuration>(cache: bool, at_commit: bool) -> Result<C12Outcome, AkdError> {
         let pending: Pending = Arc::new(tokio::sync::Mutex::new(None));
         let result = Arc::new(std::sync::Mutex::new(None));
-        let db = RunAtReadDb { inner: AsyncInMemoryDatabase::new(), pending: pending.clone(), result: result.clone() };
+        let db = RunAtReadDb { inner: AsyncInMemoryDatabase::new(), pending: pending.clone(), result: result.clone(), at_commit: Arc::new(AtomicBool::new(false)) };
+        let at_commit_flag = db.at_commit.clone();
         let st = if cache { StorageManager::new(db.clone(), None, None, None) } else { StorageManager::new_no_cache(db.clone()) };
         let dir = Directory::<TC, _, _>::new(st, HardCodedAkdVRF {}, AzksParallelismConfig::disabled()).await?;
         let kv = |k: &str, v: &str| (AkdLabel::from(k), AkdValue::from(v));
@@ -852,6 +883,7 @@ pub mod vx_export {
         let other = dir.clone();
         let p1_batch = vec![kv("a", "a2"), kv("z", "z1")];
         *pending.lock().await = Some(Box::pin(async move { other.publish(p1_batch).await.ok().map(|e| (e.epoch(), e.hash())) }));
+        at_commit_flag.store(at_commit, Ordering::SeqCst);
         let p2 = dir.publish(vec![kv("b", "b2"), kv("e", "e1")]).await.ok().map(|e| (e.epoch(), e.hash()));
         let p1 = result.lock().unwrap().clone().flatten();
         let fin = dir.get_epoch_hash().await?;
